@@ -40,8 +40,13 @@ where
         .read_until(0, &mut user_id)
         .await
         .map_err(|e| Error::ProcessSocksRequest("read user id", e))?;
-    // Remove the null byte
-    user_id.pop();
+    // Remove the null byte. `read_until` also returns at EOF, in which case the field is truncated
+    if user_id.pop() != Some(0) {
+        return Err(Error::ProcessSocksRequest(
+            "read user id",
+            std::io::ErrorKind::UnexpectedEof.into(),
+        ));
+    }
     let rhost = if ip >> 24 == 0 {
         let mut domain = Vec::new();
         reader
@@ -49,7 +54,12 @@ where
             .await
             .map_err(|e| Error::ProcessSocksRequest("read domain", e))?;
         // Remove the null byte
-        domain.pop();
+        if domain.pop() != Some(0) {
+            return Err(Error::ProcessSocksRequest(
+                "read domain",
+                std::io::ErrorKind::UnexpectedEof.into(),
+            ));
+        }
         domain
     } else {
         Ipv4Addr::from(ip).to_string().into()
